@@ -443,7 +443,7 @@ LAW(L2_inverse, RC, 20000, 500000, 400, "a row exchange happened, or min pivot w
 }
 
 // ------------------------------------------------------------------ L3 determinant of integer matrices: exact value, transpose, product
-LAW(L3_det_exact, RC, 12000, 300000, 260, "a row exchange happened, or n >= 3") {
+LAW(L3_det_exact, RC, 12000, 300000, 440, "a row exchange happened, or n >= 3") {
   size_t n = static_cast<size_t>(c.irange(1, 10));
   int subA = static_cast<int>(c.weighted({4, 2, 1, 2, 2, 2})), subB = static_cast<int>(c.weighted({4, 2, 1, 2, 2, 1}));
   IM A = genInt(c, n, subA), B = genInt(c, n, subB);
